@@ -8,6 +8,7 @@
   only, which no invariant reads - `Proofs.Cosmetic`.)
 -/
 import Proofs.Cosmetic
+import Proofs.NoPool
 import Properties.C04
 
 namespace Hive
@@ -137,6 +138,23 @@ theorem C04 {cap : MechId → Rat} (he : EnergyEnv env cap) (hf : ∀ c, env.inF
   simp only [k]
   have : s0.vehicle? veh0.id = some veh0 := lookup_of_mem hwf.veh hm0
   rw [← hid0, this]
+
+/-- **the pooling activities are unreachable**: from a state in which no vehicle is in a pooling
+    activity, no history of the complete cycle - whatever the instructions, pooling instructions
+    and requests that allow pooling included - puts a vehicle into one -/
+theorem no_pooling (hf : ∀ c, env.inFence c = true) {s0 s : Sim} (hwf : s0.WF)
+    (h0 : ∀ veh ∈ s0.vehicles, veh.act.noPool = true) (h : ReachableX env s0 s) :
+    ∀ veh ∈ s.vehicles, veh.act.noPool = true := by
+  have hI := vehPred_runInv (env := env) noPool_vehPred
+  have := (reachableX_inv hI ?_ hf hwf (by simpa [List.all_eq_true] using h0) h).1
+  · simpa [List.all_eq_true] using this
+  · intro s s' hc hi
+    simp only [List.all_eq_true] at hi ⊢
+    intro veh' hm'
+    obtain ⟨veh, hm, he⟩ := mem_of_map_eq hc.veh.symm veh' hm'
+    obtain ⟨_, _, _, _, _, hact⟩ := vehCore_fields he
+    rw [← hact]
+    exact hi veh hm
 
 end Full
 end Hive
